@@ -49,6 +49,7 @@ fn beh_of(v: &Value) -> Beh {
 		react: v["react"].as_array().map(|a| a.iter().map(|p| (p[0].as_i64().unwrap() as i32, p[1].as_u64())).collect()).unwrap_or_default(),
 		default_react: v["default"].as_u64(),
 		ignore_all: v["ignore_all"].as_bool().unwrap_or(false),
+		kill_delay: v["kill_delay"].as_u64().unwrap_or(0),
 	}
 }
 
